@@ -11,7 +11,7 @@
 (*    application.                                                         *)
 (* Family selects the action vocabulary.                                   *)
 (***************************************************************************)
-EXTENDS Props, Json, IOUtils
+EXTENDS ExtWorld, Json, IOUtils
 
 CONSTANTS Family,     \* "econ" | "attest" | "valset" | "registry"
           MaxLen,     \* length of generated behaviours / depth bound of the exhaustive runs
@@ -21,8 +21,8 @@ CONSTANTS Family,     \* "econ" | "attest" | "valset" | "registry"
           TwoLevel,   \* TRUE (simulation): first pick an action kind uniformly, then its parameters
           EmitScripts \* TRUE: print a script whenever a behaviour reaches MaxLen
 
-VARIABLES hub, xw, g, hist, bad, pick
-vars == <<hub, xw, g, hist, bad, pick>>
+VARIABLES hub, xw, g, hist, bad, pick, cnt
+vars == <<hub, xw, g, hist, bad, pick, cnt>>
 
 Vals  == {"v1", "v2", "v3"}
 ExtChains == {"ethereum", "minter", "bsc"}
@@ -46,22 +46,14 @@ EmptyChain ==
      loss |-> <<>>, votes |-> {}, lnv |-> <<>>, sigs |-> {}, ve |-> <<>>, ov |-> <<>>, eo |-> <<>>]
 
 InitHub ==
-    [cfg |-> DefaultCfg, h |-> 0, t |-> 0, inb |-> FALSE,
+    [cfg |-> "static", h |-> 0, t |-> 0, inb |-> FALSE,
      bal |-> [a \in {"a1", "a2", "a3", "tmp", "mod"} |-> [d \in {"hub", "usd"} |-> IF a \in {"a1", "a2"} THEN 1000 ELSE 0]],
      sup |-> [d \in {"hub", "usd"} |-> 2000],
      stk |-> [v \in Vals |-> [b |-> TRUE, p |-> 1, j |-> FALSE, x |-> TRUE, tk |-> 1]], tot |-> 3,
      ch  |-> [c \in {"ethereum", "minter", "bsc", "hub"} |-> EmptyChain],
      st  |-> <<>>, fr |-> <<>>, hold |-> <<>>, pr |-> <<>>]
 
-\* external world: per chain an event log (the truth honest validators report), a block height, the custody of
-\* each token (external units) and the last executed batch nonce per token
-InitExt ==
-    [c \in ExtChains |->
-       [log |-> <<>>, h |-> 1,
-        cust |-> [t \in {"t1", "t4", "1", "12", "t3", "t6"} |->
-                    \* the bridge starts exactly collateralised: the genesis supply is locked on ethereum
-                    IF c = "ethereum" /\ t = "t1" THEN 2000 ELSE IF c = "ethereum" /\ t = "t4" THEN 200 ELSE 0],
-        lbn |-> [t \in {"t1", "t4", "1", "12", "t3", "t6"} |-> 0], done |-> {}]]
+InitExt == XwInit(InitHub)
 
 Init ==
     /\ hub = InitHub
@@ -70,21 +62,24 @@ Init ==
     /\ hist = <<>>
     /\ bad = {}
     /\ pick = ""
+    /\ cnt = 0
 
 \* ---------------------------------------------------------------- one recorded step of the hub
 Do(a) ==
-    LET act == [a EXCEPT !.i = Len(hist) + 1]
+    LET act == [a EXCEPT !.i = cnt + 1]
         r   == Step(hub, act)
         res == [out |-> r.out, id |-> r.id]
     IN /\ hub' = r.s
-       /\ hist' = Append(hist, act)
+       /\ hist' = IF EmitScripts THEN Append(hist, act) ELSE hist
+       /\ cnt' = cnt + 1
        /\ g' = GhostNext(g, hub, act, res, r.s)
-       /\ bad' = StepChecks(g, hub, act, res, r.s)
+       /\ bad' = StepChecks(g, hub, act, res, r.s) \cup C01Step(hub, act, r.s)
 
 \* an action of the external world: no hub step, recorded in the script as a no-op line
 ExtDo(a, newExt) ==
     /\ xw' = newExt
-    /\ hist' = Append(hist, [a EXCEPT !.i = Len(hist) + 1])
+    /\ hist' = IF EmitScripts THEN Append(hist, [a EXCEPT !.i = cnt + 1]) ELSE hist
+    /\ cnt' = cnt + 1
     /\ UNCHANGED <<hub, g>>
     /\ bad' = {}
 
@@ -116,12 +111,11 @@ NextNonce(c) == Len(xw[c].log) + 1
 ExtDeposit ==
     /\ ~hub.inb /\ \A c \in DepChains : Len(xw[c].log) < MaxDeposits
     /\ \E c \in DepChains, amt \in {40}, fee \in {0, 2}, rch \in DepDests, d \in Denoms :
-         LET tok == TokByDenom(hub.cfg, c, d)
+         LET tok == TokByDenom(Cfg(hub), c, d)
              ev  == [t |-> "Deposit", n |-> NextNonce(c), tok |-> tok.ext, amt |-> amt, fee |-> fee, snd |-> "e7", rch |-> rch,
-                     rcv |-> IF rch = "hub" THEN "a3" ELSE "e8", eh |-> xw[c].h + 1, txh |-> "x" \o ToString(Len(hist) + 1)]
+                     rcv |-> IF rch = "hub" THEN "a3" ELSE "e8", eh |-> xw[c].h + 1, txh |-> "x" \o ToString(cnt + 1)]
          IN /\ rch # c
-            /\ ExtDo([k |-> "ExtDeposit", i |-> 0, chain |-> c, ev |-> ev],
-                     [xw EXCEPT ![c].log = Append(@, ev), ![c].h = @ + 1, ![c].cust[tok.ext] = @ + amt])
+            /\ LET act == [k |-> "ExtDeposit", i |-> 0, chain |-> c, ev |-> ev] IN ExtDo(act, XwApply(xw, act))
 
 \* a relayer executes a stored batch on the external chain (any not yet superseded nonce, before its timeout)
 ExtExec ==
@@ -130,15 +124,14 @@ ExtExec ==
          /\ b.n > xw[c].lbn[b.tok]
          /\ c = "minter" \/ xw[c].h + 1 < b.to
          /\ LET ev == [t |-> "Exec", n |-> NextNonce(c), tok |-> b.tok, bn |-> b.n, eh |-> xw[c].h + 1,
-                       txh |-> "x" \o ToString(Len(hist) + 1), fp |-> 1, fpr |-> "e9"]
+                       txh |-> "x" \o ToString(cnt + 1), fp |-> 1, fpr |-> "e9"]
                 paid == SumOver(b.txs, LAMBDA tr : tr.a)
-            IN ExtDo([k |-> "ExtExec", i |-> 0, chain |-> c, ev |-> ev],
-                     [xw EXCEPT ![c].log = Append(@, ev), ![c].h = @ + 1, ![c].lbn[b.tok] = b.n, ![c].cust[b.tok] = @ - paid,
-                                  ![c].done = @ \cup {<<b.tok, b.n>>}])
+                act == [k |-> "ExtExec", i |-> 0, chain |-> c, ev |-> ev, paid |-> paid]
+            IN ExtDo(act, XwApply(xw, act))
 
 ExtMine ==
     /\ ~hub.inb
-    /\ \E c \in {"ethereum"} : xw[c].h < 6 /\ ExtDo([k |-> "ExtMine", i |-> 0, chain |-> c, n |-> 3], [xw EXCEPT ![c].h = @ + 3])
+    /\ \E c \in {"ethereum"} : xw[c].h < 6 /\ LET act == [k |-> "ExtMine", i |-> 0, chain |-> c, n |-> 3] IN ExtDo(act, XwApply(xw, act))
 
 \* every bonded validator reports the next event of a chain's log (honest quorum, one macro step = 3 claims)
 AttestNext ==
@@ -148,14 +141,15 @@ AttestNext ==
          /\ k <= Len(xw[c].log)
          /\ \A v \in Vals : LastNonceOf(hub, c, v) \in {0, k - 1}
          /\ LET ev == xw[c].log[k]
-                a1 == [k |-> "Claim", i |-> Len(hist) + 1, by |-> "v1", chain |-> c, ev |-> ev]
-                a2 == [k |-> "Claim", i |-> Len(hist) + 2, by |-> "v2", chain |-> c, ev |-> ev]
-                a3 == [k |-> "Claim", i |-> Len(hist) + 3, by |-> "v3", chain |-> c, ev |-> ev]
+                a1 == [k |-> "Claim", i |-> cnt + 1, by |-> "v1", chain |-> c, ev |-> ev]
+                a2 == [k |-> "Claim", i |-> cnt + 2, by |-> "v2", chain |-> c, ev |-> ev]
+                a3 == [k |-> "Claim", i |-> cnt + 3, by |-> "v3", chain |-> c, ev |-> ev]
                 r1 == Step(hub, a1)
                 r2 == Step(r1.s, a2)
                 r3 == Step(r2.s, a3)
             IN /\ hub' = r3.s
-               /\ hist' = hist \o <<a1, a2, a3>>
+               /\ hist' = IF EmitScripts THEN hist \o <<a1, a2, a3>> ELSE hist
+               /\ cnt' = cnt + 3
                /\ g' = g
                /\ bad' = StepChecks(g, hub, a1, [out |-> r1.out, id |-> 0], r1.s)
                          \cup StepChecks(g, r1.s, a2, [out |-> r2.out, id |-> 0], r2.s)
@@ -176,7 +170,8 @@ StakeChange ==
     /\ \E v \in Vals, p \in {0, 1, 2, 3} :
           /\ p # hub.stk[v].p
           /\ hub' = [hub EXCEPT !.stk[v].p = p, !.stk[v].b = (p > 0), !.tot = hub.tot - hub.stk[v].p + p]
-          /\ hist' = Append(hist, [k |-> "Stake", i |-> Len(hist) + 1, val |-> v, p |-> p])
+          /\ hist' = IF EmitScripts THEN Append(hist, [k |-> "Stake", i |-> cnt + 1, val |-> v, p |-> p]) ELSE hist
+          /\ cnt' = cnt + 1
           /\ UNCHANGED <<xw, g>>
           /\ bad' = {}
 
@@ -192,12 +187,12 @@ ActionOf(kind) ==
       [] kind = "StakeChange" -> StakeChange [] OTHER -> FALSE
 
 Next ==
-    /\ Len(hist) < MaxLen
+    /\ cnt < MaxLen
     /\ IF ~TwoLevel
        THEN (\E kind \in Kinds(Family) : ActionOf(kind)) /\ pick' = ""
        ELSE IF pick = ""
             THEN /\ \E kind \in Kinds(Family) : ENABLED ActionOf(kind) /\ pick' = kind
-                 /\ UNCHANGED <<hub, xw, g, hist, bad>>
+                 /\ UNCHANGED <<hub, xw, g, hist, bad, cnt>>
             ELSE ActionOf(pick) /\ pick' = ""
 
 Spec == Init /\ [][Next]_vars
@@ -208,26 +203,11 @@ View == <<hub, xw, g, bad>>
 \* ---------------------------------------------------------------- invariants
 NoStepViolation == \A f \in bad : Excused(f)
 
-\* C01 solvency: per denom, supply + in-flight (hub units) <= custody over all chains (hub units).
-\* Transfers to the Minter-side payees created by the hub itself are in flight like any other.
-\* a transfer whose batch the external chain has already executed is no longer in flight: only its fee and
-\* commission (kept by the contract, to be minted by the hub when the execution is attested) remain owed
-PaidOut(c) == UNION {RangeOf(b.txs) : b \in {b \in hub.ch[c].bat : <<b.tok, b.n>> \in xw[c].done}}
-Owed(c, tr) == LET tok == TokByExt(hub.cfg, c, tr.tok)
-               IN IF tr \in PaidOut(c) THEN ConvDec(tok.dec, 18, tr.f + tr.c) ELSE ConvDec(tok.dec, 18, tr.a + tr.f + tr.c)
-InFlight(c, d) ==
-    FoldSet(LAMBDA tr, acc : acc + Owed(c, tr), 0, {tr \in LiveTrs(hub, c) : DenomOfTr(hub, c, tr) = d})
-Custody(c, d) ==
-    LET tok == TokByDenom(hub.cfg, c, d) IN IF Found(tok) THEN ConvDec(tok.dec, 18, xw[c].cust[tok.ext]) ELSE 0
-\* value locked externally whose deposit event the hub has not applied yet is collateral without a voucher
-Solvency ==
-    \A d \in {"hub", "usd"} :
-        hub.sup[d] + InFlight("ethereum", d) + InFlight("minter", d) + InFlight("bsc", d)
-          <= Custody("ethereum", d) + Custody("minter", d) + Custody("bsc", d)
+Solvency == Solvent(hub, xw)
 
 \* ---------------------------------------------------------------- script output (simulation mode)
 \* one file per behaviour: $VERIF_OUT/s<k>.json, k = number of the behaviour in this simulation run
-Emit == IF EmitScripts /\ Len(hist) >= MaxLen
+Emit == IF EmitScripts /\ cnt >= MaxLen
         THEN JsonSerialize(IOEnv.VERIF_OUT \o "/s" \o ToString(TLCGet("stats").traces) \o ".json", hist)
         ELSE TRUE
 
